@@ -161,10 +161,13 @@ impl SampleQueueReceiver {
         loop {
             {
                 let _guard = self.pop_lock.lock();
+                // Read before `pop`: once closed nothing more is pushed, so an empty queue seen
+                // afterwards is final (reading it after `pop` could miss the last samples).
+                let closed = self.closed.load(std::sync::atomic::Ordering::Acquire);
                 if let Some(sample) = self.queue.pop() {
                     return Some(sample);
                 }
-                if self.closed.load(std::sync::atomic::Ordering::Acquire) {
+                if closed {
                     return None;
                 }
             }
